@@ -8,6 +8,9 @@
 #include <sys/mman.h>
 #include <unistd.h>
 #include <memory>
+#include <thread>
+#include <signal.h>
+#include <algorithm>
 #include <iterator>
 
 namespace {
@@ -45,12 +48,25 @@ std::string session(const std::string& kind_arg, const std::string& spec, const 
     parse_input(spec, data);
     std::unique_ptr<std::istream> in;
     int mfd = -1;
+    int pfd[2] = {-1, -1};
+    std::thread feeder;
     if (kind == "s") in = std::make_unique<std::istringstream>(data);
     else if (kind == "f") {
         mfd = memfd_create("dec", 0);
         size_t off = 0;
         while (off < data.size()) { ssize_t w = ::write(mfd, data.data() + off, data.size() - off); if (w <= 0) break; off += w; }
         in = std::make_unique<std::ifstream>("/proc/self/fd/" + std::to_string(mfd), std::ifstream::binary);
+    } else if (kind == "p") {
+        // a pipe fed by another thread: bytes arrive while the decoder reads (in_avail() is 0 most of the time)
+        signal(SIGPIPE, SIG_IGN);
+        if (pipe(pfd) != 0) return "I E:harness";
+        int wfd = pfd[1];
+        feeder = std::thread([wfd, &data]() {
+            std::size_t off = 0;
+            while (off < data.size()) { ssize_t w = ::write(wfd, data.data() + off, std::min<std::size_t>(3000, data.size() - off)); if (w <= 0) break; off += w; }
+            close(wfd);
+        });
+        in = std::make_unique<std::ifstream>("/proc/self/fd/" + std::to_string(pfd[0]), std::ifstream::binary);
     } else if (kind == "m") {
         in = std::make_unique<std::ifstream>("/nonexistent-dir-cdnsvh/missing", std::ifstream::binary);      // failbit set by the failed open
     } else if (kind == "e") {
@@ -92,6 +108,7 @@ std::string session(const std::string& kind_arg, const std::string& spec, const 
     catch (CDNS::CdnsDecoderException&) { out += "E:dec(ctor)"; }
     catch (std::exception&) { out += "E:other(ctor)"; }
     if (mfd >= 0) close(mfd);
+    if (feeder.joinable()) { in.reset(); close(pfd[0]); feeder.join(); }
     return out;
 }
 }  // namespace
